@@ -93,6 +93,19 @@ PROPS = {
         real_vs_stub=L_REAL + "; restore target is a real directory on tmpfs",
         assumptions=SIM_ASSUME,
     ),
+    "C55": dict(
+        pkg="cmd/restic", test="TestVerifC55", level="exploration", quick_s=45, thorough_s=600,
+        text="the real runBackup over the simulated source file system in which generated entries fail to open, fail with an I/O error after a "
+             "generated number of bytes, are directories whose listing fails, turn into a directory between the first look and the open, or vanish "
+             "between the directory listing and the open; read concurrency 1-6 and the seeded schedule decide where the failures fall relative to the "
+             "archiver's workers; a snapshot is always saved and holds exactly the readable items (compared through the real read path), the "
+             "returned error is the incomplete-snapshot status (exit 3) if and only if some item could not be read; vanished items alone give success",
+        note="uses the simulated source FS through backupFSTestHook instead of a fault-injecting wrapper around a real directory (deviation from the plan, same seam)",
+        design_ref="3 / C55",
+        rule="one run = configuration x generated tree x per-entry source fault x read concurrency x seeded schedule; distinct = distinct (case, event-log hash)",
+        real_vs_stub=L_REAL,
+        assumptions=SIM_ASSUME,
+    ),
     "C26": dict(
         pkg="cmd/restic", test="TestVerifC26", level="fault_enumeration", quick_s=45, thorough_s=600,
         text="generated snapshots, optionally one completed rewrite first, then one of tag / rewrite --exclude (--forget or keeping the old one) / "
